@@ -2,9 +2,11 @@
    Only statements, [exact] and [Print Assumptions] live here.  All statements are about
    binary64 values (Coq's primitive floats), not about real numbers. *)
 From Coq Require Import List ZArith.
-From SR Require Import Model.Attr Proofs.AttrProofs.
+From SR Require Import Model.Attr Proofs.AttrProofs Proofs.AttrReProofs.
 From SR Require Proofs.FormulasAttrProofs.
 Import ListNotations.
+
+(* ==== A. One call without interference (listeners only record: the flat model [step] / [run]) ==== *)
 
 (* For every list of valid calls (finite amounts / ratios / floors, positive finite max HP,
    finite energy regen and stance bonus, units registered with attributes in range):
@@ -27,6 +29,89 @@ Theorem C07_first_event_reports_the_registered_value :
 Proof. exact C07_first_event_old. Qed.
 Print Assumptions C07_first_event_reports_the_registered_value.
 
+(* ==== B. Histories WITH re-entrant listeners (the model [rrun]: per event of the service a queue
+   of scripts; the listener of an event runs the next script - calls of the service itself - at the
+   point where the Go code calls Emit, then the outer call continues as the Go code does) ==== *)
+
+(* without listener scripts the re-entrant model is the flat model of part A, call by call and over
+   whole histories (up to the readings / return codes the recording listener adds): part A is the
+   clause "a single call without interference" of part B *)
+Theorem C07_no_listeners_is_one_call_without_interference :
+  forall fuel s o, exists evs,
+    rstep fuel s no_lsn o = Some (fst (fst (step s o)), no_lsn, evs, snd (step s o)) /\
+    strip_evs evs = snd (fst (step s o)).
+Proof. exact rstep_no_listeners. Qed.
+Print Assumptions C07_no_listeners_is_one_call_without_interference.
+
+Theorem C07_no_listeners_history :
+  forall fuel ops s, exists rs,
+    rrun fuel s no_lsn ops = Some (fst (run s ops), no_lsn, rs) /\
+    map (fun r => mkRes (strip_evs (r_evs r)) (r_err r) (r_snap r)) rs = snd (run s ops).
+Proof. exact rrun_no_listeners. Qed.
+Print Assumptions C07_no_listeners_history.
+
+(* The property text at FULL strength for every start in range, all valid top-level calls, all tables
+   of listener scripts, all fuel (out of fuel excluded: the hypothesis [rrun ... = Some _]) is FALSE
+   of the faithful model of today's SetStance: StanceBreak / StanceReset are emitted before the new
+   stance is stored and StanceChange has no old <> new guard.  Witnesses (replayed on the Go code
+   through the harness: corpus/C07/attr/reentrant_break_listener_sets_zero.json,
+   reentrant_reset_listener_raises.json): a StanceBreak listener that sets the same unit's stance to
+   zero - events Break, Break, StanceChange 60 -> 0, StanceChange 0 -> 0; a StanceReset listener that
+   raises it - Reset, Reset, StanceChange 0 -> 30, StanceChange 30 -> 60. *)
+Theorem C07_reentrant_full_refuted : ~ C07_re_full_statement.
+Proof. exact C07_re_full_refuted. Qed.
+Print Assumptions C07_reentrant_full_refuted.
+
+Theorem C07_reentrant_refutation_witnesses : C07_re_refutation.
+Proof. exact C07_re_refutation_holds. Qed.
+
+(* the break / reset clause alone, on a history whose StanceChange events all report changes *)
+Theorem C07_reentrant_reset_clause_refuted :
+  exists fuel L ops s' L' rs, Forall op_ok ops /\ lsn_ok L /\ rrun fuel init L ops = Some (s', L', rs) /\
+    stance_strict (revents rs) /\ ~ announced_exactly (revents rs).
+Proof. exact C07_re_reset_clause_refuted. Qed.
+Print Assumptions C07_reentrant_reset_clause_refuted.
+
+(* The strongest statement that holds, for every start in range, all valid top-level calls, all
+   listener scripts, all fuel, out of fuel excluded ([C07_re_conclusion false]): ranges in the final
+   state and in every reading taken when an event reaches its listeners; per unit and quantity the
+   change events lead from the value before the history to the value after it (old_(i+1) == new_i,
+   first old == start, last new == end) and the new value of an event is the stored value when the
+   event reaches its listeners; the same for the skill points; every HPChange / EnergyChange /
+   SPChange has old <> new; one StanceBreak per StanceChange that ends at zero, at least one
+   StanceReset per StanceChange that leaves zero, at least one StanceBreak per StanceChange that
+   reaches zero from a positive value; and the FULL text (every StanceChange has old <> new, breaks
+   and resets exactly) whenever no listener reacts to StanceBreak / StanceReset - whatever the
+   listeners of HPChange, LimboWaitHeal, StanceChange, EnergyChange, SPChange do. *)
+Theorem C07_reentrant_partial : C07_re_partial_statement.
+Proof. exact C07_re_partial. Qed.
+Print Assumptions C07_reentrant_partial.
+
+(* the same per call (top level or issued by a listener), from any state in range: what the call and
+   everything nested in it recorded leads from the values before the call to the values after it *)
+Theorem C07_reentrant_call : C07_re_call_statement.
+Proof. exact C07_re_call. Qed.
+Print Assumptions C07_reentrant_call.
+
+(* out of fuel is unreachable with fuel >= the number of queued scripts (the correspondence runs the
+   model with one more) *)
+Theorem C07_fuel_suffices :
+  forall fuel ops s L, (n_scripts L <= fuel)%nat -> rrun fuel s L ops <> None.
+Proof. exact fuel_suffices. Qed.
+Print Assumptions C07_fuel_suffices.
+
+(* non-vacuity of part B: a valid history that re-enters three levels deep on the same unit (an
+   HPChange listener heals the unit being damaged; StanceChange -> energy -> EnergyChange -> skill
+   points -> SPChange -> SetStance of the unit whose ModifyStance is still running), no listener on
+   StanceBreak / StanceReset, 8 events, out of fuel with fuel 2 *)
+Theorem C07_reentrant_nonvacuous : redemo_statement.
+Proof. exact redemo_holds. Qed.
+
+(* the monitor evaluated on every implementation output accepts the witnesses (today's code), the
+   monitor of the full property text rejects them; both accept the history above *)
+Theorem C07_monitors_on_the_witnesses : monitors_on_witnesses.
+Proof. exact monitors_on_witnesses_hold. Qed.
+
 (* the clamp used by every mutator lands in [0, hi] for every non-NaN input *)
 Theorem C07_clamp_in_range : clamp_statement.
 Proof. exact clampTo_range. Qed.
@@ -41,7 +126,7 @@ Theorem C07_model_formulas_are_the_source : FormulasAttrProofs.C07_formulas_stat
 Proof. exact FormulasAttrProofs.C07_formulas_hold. Qed.
 Print Assumptions C07_model_formulas_are_the_source.
 
-(* a valid history with a floor crossing, a death, a break, a no-op, a reset, clamped energy
+(* non-vacuity of part A: a valid history with a floor crossing, a death, a break, a no-op, a reset, clamped energy
    and clamped skill points: 10 events, HP events (1 -> 0.5), (0.5 -> 0), one break, one reset *)
 Theorem C07_nonvacuous : demo_statement.
 Proof. exact (conj demo_valid demo_runs). Qed.
